@@ -21,3 +21,6 @@ type Amount struct {
 	Scales    [2]deep.Scale
 	ByScale   map[deep.Scale]int
 }
+
+// Rating re-exports an enum of the package below.
+type Rating = deep.Exactness
